@@ -10,8 +10,11 @@
 //	sube2e  SubgraphRequestSingleFlight through Loader.loadByContext, reached through
 //	        Resolver.ArenaResolveGraphQLResponse with inbound de-duplication disabled
 //
-// Every actor is a goroutine.  It parks at the verif yield points (resolve.SetVerifYield) and at the
-// gate (its own work / DataSource.Load) until the scheduler releases it; "blocked in the select of
+// Every actor is a goroutine wrapped in a recover (the request boundary: what net/http does for every
+// handler).  It parks at the verif yield points (resolve.SetVerifYield), at the gate (its own work /
+// DataSource.Load: answered with bytes, an error, or a PANIC on the actor's goroutine) and, in the two
+// inbound modes, inside the Write of its own client writer (answered with ok, with the writer's own error,
+// or with a panic) until the scheduler releases it; "blocked in the select of
 // GetOrCreate / loadByContext" is read off the goroutine's wait state.  Between two commands of the
 // scheduler at most the released actor and the actors it wakes run.
 package main
@@ -23,12 +26,14 @@ import (
 	"fmt"
 	"net/http"
 	"os"
+	"reflect"
 	"runtime"
 	"strconv"
 	"strings"
 	"sync"
 	"sync/atomic"
 	"time"
+	"unsafe"
 
 	"gvh/common"
 
@@ -85,6 +90,14 @@ type ctxErr struct{ id int }
 func (e ctxErr) Error() string        { return fmt.Sprintf("context of actor %d canceled", e.id) }
 func (e ctxErr) Is(target error) bool { return target == context.Canceled }
 
+// wrErr is the failure of actor id's own client writer (broken pipe, write deadline, stream reset ...)
+type wrErr struct{ id int }
+
+func (e wrErr) Error() string { return fmt.Sprintf("write to the client of actor %d: broken pipe", e.id) }
+
+// injected is the value of a panic that the scheduler injected into actor id's own work or own writer
+type injected struct{ id int }
+
 type actorKey struct{}
 
 // actorCtx reports its own cancellation with an error that names the actor
@@ -112,6 +125,21 @@ func classify(err error) string {
 	return common.L("err", "other", common.QS(err.Error()))
 }
 
+// outcome of a call that handed out to the actor's own writer and returned err
+func (a *actor) outcome(err error) string {
+	if a.mutated {
+		return common.L("err", "other", common.QS("the buffer handed to the writer changed while the writer was parked"))
+	}
+	var w wrErr
+	if errors.As(err, &w) {
+		return common.L("wrerr", common.I(w.id), common.Q(a.out.Bytes()))
+	}
+	if err != nil {
+		return classify(err)
+	}
+	return common.L("wrote", common.Q(a.out.Bytes()))
+}
+
 // ---------------------------------------------------------------- actors and scheduler
 
 const (
@@ -137,6 +165,10 @@ type actor struct {
 	canceled bool
 	executed bool   // its own work / Load was entered
 	ans      string // how the own work was answered
+	out      bytes.Buffer
+	wrote    bool   // the own client writer was called
+	wr       string // how the Write on the own writer was answered
+	mutated  bool   // the slice handed to Write changed while the writer was parked
 	result   string // S-expression of the outcome once done
 	shared   bool
 	loadRes  string // sube2e: outcome seen by OnFinished
@@ -151,6 +183,7 @@ type sched struct {
 	res    *resolve.Resolver
 	sf     *resolve.InboundRequestSingleFlight
 	note   []string
+	reg0   int // table entries before the schedule started
 }
 
 func curGoid() uint64 {
@@ -256,8 +289,72 @@ func (s *sched) gate(a *actor, name string) ([]byte, error) {
 		return nil, upErr{a.id}
 	case "errctx":
 		return nil, a.ctx.Err()
+	case "panic":
+		panic(injected{a.id})
 	}
 	panic("bad answer " + ans.kind)
+}
+
+// gatedWriter is the actor's own client writer: every Write parks inside the call
+type gatedWriter struct {
+	s *sched
+	a *actor
+}
+
+func (w gatedWriter) Write(p []byte) (int, error) {
+	a := w.a
+	if g := curGoid(); g != a.goid.Load() {
+		w.s.byGoid.Store(g, a)
+		a.goid.Store(g)
+	}
+	a.wrote = true
+	a.out.Write(p)
+	snap := append([]byte(nil), p...)
+	ans := a.park("write")
+	a.state.Store(stRunning)
+	a.wr = ans.kind
+	if !bytes.Equal(snap, p) {
+		a.mutated = true
+	}
+	switch ans.kind {
+	case "ok":
+		return len(p), nil
+	case "fail":
+		return 0, wrErr{a.id}
+	case "panic":
+		panic(injected{a.id})
+	}
+	panic("bad write answer " + ans.kind)
+}
+
+// ---------------------------------------------------------------- the tables' sizes (no accessor: reflection)
+
+func syncMapLen(v reflect.Value) int {
+	m := (*sync.Map)(unsafe.Pointer(v.UnsafeAddr()))
+	n := 0
+	m.Range(func(_, _ any) bool { n++; return true })
+	return n
+}
+
+func shardsLen(table reflect.Value, field string) int {
+	n := 0
+	sh := table.Elem().FieldByName("shards")
+	for i := 0; i < sh.Len(); i++ {
+		n += syncMapLen(sh.Index(i).FieldByName(field))
+	}
+	return n
+}
+
+// registered returns the number of keys in the single-flight table that the mode exercises
+func (s *sched) registered() int {
+	switch s.mode {
+	case "inb":
+		return shardsLen(reflect.ValueOf(s.sf), "m")
+	case "inbe2e":
+		return shardsLen(reflect.ValueOf(s.res).Elem().FieldByName("inboundRequestSingleFlight"), "m")
+	default:
+		return shardsLen(reflect.ValueOf(s.res).Elem().FieldByName("subgraphRequestSingleFlight"), "items")
+	}
 }
 
 type gatedDS struct{}
@@ -377,8 +474,13 @@ func (s *sched) resolveCtx(a *actor) *resolve.Context {
 // the body of one actor
 func (s *sched) runActor(a *actor) {
 	defer func() {
+		// the request boundary: a panic ends this request only
 		if r := recover(); r != nil {
-			a.result = common.L("panic", common.QS(fmt.Sprint(r)))
+			if in, ok := r.(injected); ok && in.id == a.id {
+				a.result = "(crash)"
+			} else {
+				a.result = common.L("panic", common.QS(fmt.Sprint(r)))
+			}
 		}
 		a.state.Store(stDone)
 	}()
@@ -386,7 +488,7 @@ func (s *sched) runActor(a *actor) {
 	a.goid.Store(g)
 	s.byGoid.Store(g, a)
 	a.state.Store(stRunning)
-	var out bytes.Buffer
+	w := gatedWriter{s, a}
 	switch s.mode {
 	case "inb":
 		// replica of the caller logic of Resolver.ArenaResolveGraphQLResponse
@@ -398,32 +500,29 @@ func (s *sched) runActor(a *actor) {
 			return
 		}
 		if inflight != nil && inflight.Data != nil { // follower
-			out.Write(inflight.Data)
 			a.shared = true
-			a.result = common.L("wrote", common.Q(out.Bytes()))
+			_, err = w.Write(inflight.Data)
+			a.result = a.outcome(err)
 			return
 		}
+		defer s.sf.Abandon(inflight)
 		data, err := s.gate(a, "work")
 		if err != nil {
 			s.sf.FinishErr(inflight, err)
 			a.result = classify(err)
 			return
 		}
-		out.Write(data)
-		a.result = common.L("wrote", common.Q(out.Bytes()))
+		_, err = w.Write(data)
+		a.result = a.outcome(err)
 		s.sf.FinishOk(inflight, data)
 	case "inbe2e":
 		c := s.resolveCtx(a)
-		info, err := s.res.ArenaResolveGraphQLResponse(c, s.response(a), &out)
-		if err != nil {
-			a.result = classify(err)
-			return
-		}
+		info, err := s.res.ArenaResolveGraphQLResponse(c, s.response(a), w)
 		a.shared = info != nil && info.ResolveDeduplicated
-		a.result = common.L("wrote", common.Q(out.Bytes()))
+		a.result = a.outcome(err)
 	case "sube2e":
 		c := s.resolveCtx(a)
-		_, err := s.res.ArenaResolveGraphQLResponse(c, s.response(a), &out)
+		_, err := s.res.ArenaResolveGraphQLResponse(c, s.response(a), &a.out)
 		switch {
 		case a.loadRes != "":
 			a.result = a.loadRes
@@ -431,7 +530,7 @@ func (s *sched) runActor(a *actor) {
 		case err != nil:
 			a.result = common.L("err", "other", common.QS("resolve: "+err.Error()))
 		default:
-			a.result = common.L("err", "other", common.QS("OnFinished not called; body "+out.String()))
+			a.result = common.L("err", "other", common.QS("OnFinished not called; body "+a.out.String()))
 		}
 	}
 }
@@ -515,22 +614,25 @@ func (s *sched) settle() []string {
 }
 
 type cmd struct {
-	op   string // start rel ans cancel
+	op   string // start rel ans wr cancel
 	i    int
 	kind string
 }
 
 func (c cmd) String() string {
-	if c.op == "ans" {
-		return common.L("ans", common.I(c.i), c.kind)
+	if c.op == "ans" || c.op == "wr" {
+		return common.L(c.op, common.I(c.i), c.kind)
 	}
 	return common.L(c.op, common.I(c.i))
 }
 
 type genOpts struct {
 	plan      []string // per actor planned answer kind (exhaustive) or nil (all kinds offered)
+	wplan     []string // per actor planned answer of its own writer (nil with plan != nil: ok)
 	cancelMax int
 }
+
+var writeAnswers = []string{"ok", "fail", "panic"}
 
 func answersFor(mode string) []string {
 	switch mode {
@@ -584,6 +686,17 @@ func (s *sched) options(st []string, o genOpts, cancels int) []cmd {
 					}
 				}
 			}
+		case st[i] == "(at write)":
+			switch {
+			case o.wplan != nil:
+				opts = append(opts, cmd{"wr", i, o.wplan[i]})
+			case o.plan != nil:
+				opts = append(opts, cmd{"wr", i, "ok"})
+			default:
+				for _, k := range writeAnswers {
+					opts = append(opts, cmd{"wr", i, k})
+				}
+			}
 		case strings.HasPrefix(st[i], "(at "):
 			opts = append(opts, cmd{"rel", i, ""})
 		}
@@ -611,11 +724,20 @@ func (s *sched) apply(c cmd) bool {
 		if a.state.Load() != stParked {
 			return false
 		}
-		if p := a.point.Load().(string); p == "work" || p == "load" {
+		if p := a.point.Load().(string); p == "work" || p == "load" || p == "write" {
 			return false
 		}
 		a.state.Store(stRunning)
 		a.resume <- answer{}
+	case "wr":
+		if a.state.Load() != stParked || a.point.Load().(string) != "write" {
+			return false
+		}
+		if c.kind != "ok" && c.kind != "fail" && c.kind != "panic" {
+			return false
+		}
+		a.state.Store(stRunning)
+		a.resume <- answer{c.kind}
 	case "ans":
 		if a.state.Load() != stParked {
 			return false
@@ -680,7 +802,7 @@ func runSchedule(mode string, reqs []reqSpec, o genOpts, choose func(opts []cmd)
 					busy = true
 					a.state.Store(stRunning)
 					p := a.point.Load().(string)
-					if p == "work" || p == "load" {
+					if p == "work" || p == "load" || p == "write" {
 						a.resume <- answer{"ok"}
 					} else {
 						a.resume <- answer{}
@@ -696,6 +818,7 @@ func runSchedule(mode string, reqs []reqSpec, o genOpts, choose func(opts []cmd)
 		}
 		curSched.Store(nil)
 	}()
+	s.reg0 = s.registered()
 	st := s.settle()
 	for i, a := range s.actors {
 		a.lastSeen = st[i]
@@ -741,10 +864,20 @@ func runSchedule(mode string, reqs []reqSpec, o genOpts, choose func(opts []cmd)
 		if a.executed && a.ans != "" {
 			ans = a.ans
 		}
-		fin = append(fin, common.L(common.I(i), res, common.B(a.shared), common.B(a.canceled), ans))
+		wr := "-"
+		if a.wrote && a.wr != "" {
+			wr = a.wr
+		}
+		fin = append(fin, common.L(common.I(i), res, common.B(a.shared), common.B(a.canceled), ans, wr))
+	}
+	// keys of this schedule that are still in the table now that nothing can move any more
+	reg := s.registered() - s.reg0
+	if reg < 0 {
+		reg = 0
 	}
 	return common.L("c11", mode, common.L(append([]string{"reqs"}, rs...)...),
-		common.L(append([]string{"trace"}, trace...)...), common.L(append([]string{"final"}, fin...)...))
+		common.L(append([]string{"trace"}, trace...)...), common.L(append([]string{"final"}, fin...)...),
+		common.L("reg", common.I(reg)))
 }
 
 // ---------------------------------------------------------------- calibration of the failure body
@@ -838,9 +971,11 @@ func randomReqs(r *common.Rand, n int, fail []byte) []reqSpec {
 func randomSchedule(mode string, r *common.Rand, reqs []reqSpec) string {
 	return runSchedule(mode, reqs, genOpts{cancelMax: 2}, func(opts []cmd) (cmd, bool) {
 		// cancellations are rarer than progress
-		for tries := 0; tries < 3; tries++ {
+		// ... and so are failing writers and panics
+		for tries := 0; tries < 4; tries++ {
 			c := opts[r.Pick(len(opts))]
-			if c.op != "cancel" || r.Chance(1, 3) {
+			rare := c.op == "cancel" || ((c.op == "wr" || c.op == "ans") && (c.kind == "fail" || c.kind == "panic"))
+			if !rare || r.Chance(1, 3) {
 				return c, true
 			}
 		}
@@ -1036,6 +1171,33 @@ func main() {
 				{q(0, 0, "query", false), q(1, 0, "query", true)},
 			} {
 				enumerate(mode, rs, genOpts{plan: []string{"ok", "ok"}, cancelMax: 0}, 0, emit)
+			}
+			// --- leader-side failures after the shared work succeeded, private writers, panics.  The two requests
+			// are interchangeable, so "actor 0 has the failing writer / the panicking work" covers the leader and
+			// the follower (the DFS starts them in both orders).
+			same := []reqSpec{q(0, 0, "query", true), q(1, 0, "query", true)}
+			if mode != "sube2e" {
+				// a client Write that fails / panics, work ok: all interleavings, with one cancellation for the failing writer
+				enumerate(mode, same, genOpts{plan: []string{"ok", "ok"}, wplan: []string{"fail", "ok"}, cancelMax: 1}, 0, emit)
+				enumerate(mode, same, genOpts{plan: []string{"ok", "ok"}, wplan: []string{"panic", "ok"}, cancelMax: 0}, 0, emit)
+				if tier == "thorough" {
+					enumerate(mode, same, genOpts{plan: []string{"ok", "ok"}, wplan: []string{"fail", "fail"}, cancelMax: 1}, 0, emit)
+					enumerate(mode, same, genOpts{plan: []string{"ok", "ok"}, wplan: []string{"panic", "fail"}, cancelMax: 1}, 0, emit)
+					enumerate(mode, same, genOpts{plan: []string{kinds[1], "ok"}, wplan: []string{"fail", "ok"}, cancelMax: 1}, 0, emit)
+				}
+			}
+			// the shared work panics (recovered at the request boundary): followers waiting at that moment,
+			// identical requests arriving afterwards
+			cm := 0
+			if mode != "inb" || tier == "thorough" {
+				cm = 1
+			}
+			enumerate(mode, same, genOpts{plan: []string{"panic", "ok"}, cancelMax: cm}, 0, emit)
+			enumerate(mode, same, genOpts{plan: []string{"panic", "panic"}, cancelMax: 0}, 0, emit)
+			if tier == "thorough" {
+				enumerate(mode, same, genOpts{plan: []string{"panic", kinds[1]}, cancelMax: 1}, 0, emit)
+				enumerate(mode, []reqSpec{q(0, 0, "query", true), q(1, 0, "query", true), q(2, 0, "query", true)},
+					genOpts{plan: []string{"panic", "ok", "ok"}, cancelMax: 0}, 20000, emit)
 			}
 			if tier == "thorough" {
 				// three same-key queries, no cancellation, all interleavings
